@@ -482,3 +482,18 @@ func init() {
 		}
 	}})
 }
+
+func init() {
+	register(&Property{ID: "X-freshelem", NeedSSA: true, Decided: "dump", NotDecided: "-", Run: func(c *Ctx) {
+		p := c.P
+		for _, fn := range p.ModuleSSAFuncs() {
+			if fn.Origin() != nil || fn.Blocks == nil {
+				continue
+			}
+			rs, _ := recycledElements(fn)
+			for _, r := range rs {
+				c.Fail("X", FuncKey(fn)+" "+r.How, r.Pos, "into %s", r.Into.String())
+			}
+		}
+	}})
+}
